@@ -62,7 +62,11 @@ def _case(draw, unit):
         'N': draw(st.sampled_from([1, 1, 2, 3])),
         'C': draw(st.sampled_from([1, 1, 2, 3])),
         'dtype': draw(st.sampled_from(['f64', 'f64', 'f64', 'f64', 'f32'])),
-        'wave_form': draw(st.sampled_from(['name', 'name', 'name', 'object', 'tuple'])),
+        'wave_form': draw(st.sampled_from(['name', 'name', 'name', 'object', 'tuple', 'tuple'])),
+        # for the tuple form: a rescaled (still perfect-reconstruction) filter bank, analysis (lo*a, hi*b),
+        # synthesis (lo/a, hi/b), e.g. the JPEG2000 normalisation
+        'fb_scale': draw(st.sampled_from([[1.0, 1.0], [1.0, 1.0], [2 ** 0.5, 2 ** -0.5], [2 ** -0.5, 2 ** 0.5], [2.0, 0.5],
+                                          [0.5, 1.0], [1.0, -1.0], [3.0, 0.25]])),
         'rx': draw(core.recipe_strategy()),
         'k': draw(st.integers(0, 10**6)),
     }
@@ -78,10 +82,21 @@ def wave_arg(case, kind='dec'):
     form = case.get('wave_form', 'name')
     if form == 'name':
         return case['wave']
-    w = pywt.Wavelet(case['wave'])
+    w = ref_wavelet(case)
     if form == 'object':
         return w
     return (np.array(w.dec_lo), np.array(w.dec_hi)) if kind == 'dec' else (np.array(w.rec_lo), np.array(w.rec_hi))
+
+
+def ref_wavelet(case):
+    """The PyWavelets wavelet the case talks about: a built-in one, or (tuple form) a rescaled custom filter bank."""
+    import pywt
+    w = pywt.Wavelet(case['wave'])
+    a, b = case.get('fb_scale', [1.0, 1.0]) if case.get('wave_form') == 'tuple' else (1.0, 1.0)
+    if (a, b) == (1.0, 1.0):
+        return w
+    return pywt.Wavelet('custom', filter_bank=[np.array(w.dec_lo) * a, np.array(w.dec_hi) * b,
+                                               np.array(w.rec_lo) / a, np.array(w.rec_hi) / b])
 
 
 def _module(case):
@@ -117,7 +132,9 @@ def run_case(case):
 
     mod = _module(case)
     tdt = dwtu.tdt(case['dtype'])
-    refw = w
+    refw = wave_ref = ref_wavelet(case)
+    r.label('rescaled_filter_bank' if wave_ref is not None and case.get('wave_form') == 'tuple' and
+            case.get('fb_scale', [1.0, 1.0]) != [1.0, 1.0] else None)
     reffn = dwtu.ref_wavedec if dim == 1 else dwtu.ref_wavedec2
 
     def values_mismatch(what, msg):
